@@ -347,7 +347,7 @@ type c18Two struct {
 func c18BuildTwo(tier string) core.Source {
 	drive.Quiet()
 	var cases []c18Two
-	for _, k := range []string{"pull-pull", "pull-push", "push-push-distinct", "push-push-same"} {
+	for _, k := range []string{"pull-pull", "pull-pull-same", "pull-push", "push-push-distinct", "push-push-same"} {
 		for _, cp := range [][2]int{{sched.Inf, sched.Inf}, {7, 7}, {0, sched.Inf}, {sched.Inf, 0}} {
 			b := 1
 			cases = append(cases, c18Two{k, cp[0], cp[1], b})
@@ -403,6 +403,15 @@ func c18BuildTwo(tier string) core.Source {
 					}
 					if runB {
 						session(1, false, "rb", dstB)
+					}
+				case "pull-pull-same":
+					// both sessions read the SAME module directory: whatever one session opens, caches or closes
+					// for that directory must not affect the other
+					if runA {
+						session(0, false, "ra", dstA)
+					}
+					if runB {
+						session(1, false, "ra", dstB)
 					}
 				case "pull-push":
 					if runA {
@@ -788,7 +797,7 @@ func init() {
 	core.Register(&core.Prop{
 		ID:    "C18",
 		Level: "model_checking",
-		Rule: "single: every order in which pending transport operations of client and server complete, with <=1 (thorough <=2) deviations (preemptions; 1-byte and half transfers) from the run-to-completion schedule, explored by stateless DFS under a synctest-based controlled scheduler, for arrangements {lib-pull, lib-push, daemon-pull, daemon-push} x capacities {0,1,7,65536,inf}^2 x trees {tiny, many-tiny; huge-literal and huge-sum-list at capacities {0,4096,65536,inf}^2}, a source whose files vanish after the listing (24 in a row), plus the option sets {-rt --delete with 40 exclude rules, -a, -rtc} at capacities {0,inf}^2 (thorough {0,7,inf}^2); two: two sessions on one Server (pull||pull, pull||upload, upload||upload to distinct and to the identical target) interleaved at operation granularity; local: the in-process-server local copy inside a bubble (deadlock = every goroutine durably blocked); race: free-running concurrent pulls and uploads on one Server under the race detector with GOMAXPROCS in {1,2,4,16}; aborted: rounds of a 24 MiB download dropped by the peer mid-file followed at once by 4 concurrent ordinary downloads on the same Server, under the race detector. " +
+		Rule: "single: every order in which pending transport operations of client and server complete, with <=1 (thorough <=2) deviations (preemptions; 1-byte and half transfers) from the run-to-completion schedule, explored by stateless DFS under a synctest-based controlled scheduler, for arrangements {lib-pull, lib-push, daemon-pull, daemon-push} x capacities {0,1,7,65536,inf}^2 x trees {tiny, many-tiny; huge-literal and huge-sum-list at capacities {0,4096,65536,inf}^2}, a source whose files vanish after the listing (24 in a row), plus the option sets {-rt --delete with 40 exclude rules, -a, -rtc} at capacities {0,inf}^2 (thorough {0,7,inf}^2); two: two sessions on one Server (pull||pull from two modules and from the same module, pull||upload, upload||upload to distinct and to the identical target) interleaved at operation granularity; local: the in-process-server local copy inside a bubble (deadlock = every goroutine durably blocked); race: free-running concurrent pulls and uploads on one Server under the race detector with GOMAXPROCS in {1,2,4,16}; aborted: rounds of a 24 MiB download dropped by the peer mid-file followed at once by 4 concurrent ordinary downloads on the same Server, under the race detector. " +
 			"oracle: every execution finishes (structural deadlock detection, no timeouts) and its outcome (errors, destination snapshot, no leftover temp files) equals the deviation-free outcome / the solo outcome. states = scheduling points visited, transitions = transport operations executed",
 		Assum: []string{"goroutines blocked in file-system syscalls are not scheduling points (synctest.Wait waits for them)", "the cooperative scheduler hides data races; they are looked for in the separate free-running -race part"},
 		Parts: func(tier string) []core.Part {
